@@ -64,6 +64,10 @@ def gen_plan(seed: int, run: int, tier: str) -> dict:
         "p_seam": rng.choice([0.1, 0.3, 0.6]),
         "short_writes": rng.random() < 0.3,
     }
+    if rng.random() < 0.3:
+        # a transient error when the lock file is created (EMFILE / ENOSPC / EIO): that append
+        # fails without having held the lock, everybody else must be unaffected
+        cfg["create_faults"] = [{"task": rng.choice(sorted(tasks)), "nth": rng.randint(0, 6), "errno": rng.choice([24, 28, 5])} for _ in range(rng.randint(1, 2))]
     if any(r["pad"] >= 4000 for t in tasks.values() for o in t["ops"] for r in o.get("recs", [])):
         # multi-KiB records with 16-byte read blocks would cost hundreds of thousands of steps
         cfg["read_block"] = rng.choice([256, 1024, 8192])
@@ -108,6 +112,7 @@ def _run(plan: dict, sim: sched.Sim, ch: sched.Chooser, dep: deploy.Deployment) 
     order: list[dict] = []  # records in append (critical-section) order
     holders: list[str] = []
     completed = [0]  # number of records whose append_logs call has returned
+    failed_ids: set = set()  # records of appends that failed with an injected lock-creation error
     inflight = {"writes": 0, "release": set()}
 
     def on_op(op: str, path: str) -> None:
@@ -167,6 +172,23 @@ def _run(plan: dict, sim: sched.Sim, ch: sched.Chooser, dep: deploy.Deployment) 
         srng = _r.Random(cfg.get("chunk_seed", 1) ^ 0x51)
         fs.short_writer = lambda task, n: n if n <= 1 or srng.random() < 0.5 else srng.randrange(1, n)
     backends = {n: mk_backend() for n in sorted(plan["tasks"])}
+    create_faults = [dict(f) for f in cfg.get("create_faults", [])]
+    ncreate: dict[str, int] = {}
+    injected: list[BaseException] = []
+
+    if create_faults:
+
+        def io_fault(task: Any, op: str) -> Any:
+            if op != "create" or task is None:
+                return None
+            ncreate[task.name] = ncreate.get(task.name, 0) + 1
+            for f in create_faults:
+                if not f.get("fired") and f["task"] == task.name and f["nth"] == ncreate[task.name] - 1:
+                    f["fired"] = True
+                    return f["errno"]
+            return None
+
+        fs.io_fault = io_fault
 
     def resolve_from(b: Any, spec: str, arg: int) -> int:
         known = sorted(b._log_number_offset)
@@ -209,6 +231,20 @@ def _run(plan: dict, sim: sched.Sim, ch: sched.Chooser, dep: deploy.Deployment) 
                     sim.note("append.inv", name, [r["id"] for r in op["recs"]])
                     try:
                         b.append_logs(logs)
+                    except OSError as e:
+                        if any(f.get("fired") and not f.get("seen") and f["task"] == name and f["errno"] == e.errno for f in create_faults):
+                            # the injected error: this append failed before it held the lock;
+                            # none of its records may ever show up
+                            for f in create_faults:
+                                if f.get("fired") and not f.get("seen") and f["task"] == name and f["errno"] == e.errno:
+                                    f["seen"] = True
+                                    break
+                            failed_ids.update(r["id"] for r in op["recs"])
+                            pending.pop(name, None)
+                            sim.note("append.failed", name, e.errno)
+                            continue
+                        verdict.append((prefix + "append-raised|" + type(e).__name__, "%s append_logs raised %r" % (name, e)))
+                        return
                     except Exception as e:  # noqa
                         verdict.append((prefix + "append-raised|" + type(e).__name__, "%s append_logs raised %r" % (name, e)))
                         return
@@ -264,6 +300,8 @@ def _run(plan: dict, sim: sched.Sim, ch: sched.Chooser, dep: deploy.Deployment) 
             raise RuntimeError("task %s died: %r" % (t.name, t.exc)) from t.exc
     if verdict:
         return common.result(sim, ch, "violation", verdict[0][0], verdict[0][1])
+    if failed_ids & {r["id"] for r in order}:
+        return common.result(sim, ch, "violation", prefix + "failed-append-written", "records %r of an append that raised were written" % sorted(failed_ids & {r["id"] for r in order}))
     # (3) file == concatenation of all records in append order
     seams.set_sim(sim, fs)
     expected = b"".join(json.dumps(r, separators=(",", ":")).encode("utf-8") + b"\n" for r in order)
